@@ -24,14 +24,15 @@ BindObserved(e) ==
   /\ lepoch' = e.st.lepoch /\ pepoch' = e.st.pepoch /\ e0' = e.st.e0
   /\ fo' = [on |-> e.st.fo.on, wit |-> ToSet(e.st.fo.wit)]
   /\ obs' = e.obs
+  /\ pend' = e.st.pend
 
 TraceInit ==
   LET e == Trace[1] IN
   /\ exists = e.st.exists /\ isr = ToSet(e.st.isr) /\ leader = e.st.leader
   /\ lepoch = e.st.lepoch /\ pepoch = e.st.pepoch /\ e0 = e.st.e0
   /\ fo = [on |-> e.st.fo.on, wit |-> ToSet(e.st.fo.wit)]
-  /\ obs = e.obs
-  /\ armed = FALSE /\ good = {}
+  /\ obs = e.obs /\ pend = e.st.pend
+  /\ armed = FALSE /\ good = {} /\ taint = FALSE
   /\ l = 2
 
 Fail(kind, e, name) == PrintT(<<"FAIL", kind, e.t, l, e.a, name>>)
@@ -41,19 +42,28 @@ Chk(ok, kind, e, name) == IF ok THEN TRUE ELSE Fail(kind, e, name)
 GoodAfter(e) ==
   CASE e.a = "Open" -> {}
     [] e.a = "Report" -> GoodAfterReport(e.args.w, e.args.l, e.args.e)
+    [] e.a = "ReportApply" -> GoodAfterReport(pend[e.args.i].w, pend[e.args.i].l, pend[e.args.i].e)
     [] e.a \in {"Shrink", "Expand"} -> IF Stale(e.args.l, e.args.e) THEN good ELSE GoodAfterISR
-    [] e.a = "Skip" -> good
+    [] e.a \in {"Skip", "ReportCheck"} -> good
     [] OTHER -> {}      \* Expire, Lose, Remove
 ArmedAfter(e) ==
   CASE e.a = "Open" -> FALSE
     [] e.a = "Report" -> ArmedAfterReport(e.args.w, e.args.l, e.args.e)
-    [] e.a \in {"Shrink", "Expand", "Skip"} -> armed
+    [] e.a = "ReportApply" -> ArmedAfterEffect
+    [] e.a \in {"Shrink", "Expand", "Skip", "ReportCheck"} -> armed
     [] e.a = "Expire" -> IF fo.on /\ armed THEN FALSE ELSE armed
     [] e.a = "Remove" -> IF exists THEN FALSE ELSE armed
     [] OTHER -> FALSE   \* Lose
 
+TaintAfter(e) ==
+  CASE e.a = "Open" -> FALSE
+    [] e.a = "ReportApply" -> taint \/ Stale(pend[e.args.i].l, pend[e.args.i].e)
+    [] OTHER -> taint
+
 PropOf(e) ==
   CASE e.a = "Report" -> P_ReportLeader(e.args.w, e.args.l, e.args.e)
+    [] e.a = "ReportCheck" -> P_ReportCheck(e.args.w, e.args.l, e.args.e)
+    [] e.a = "ReportApply" -> P_ReportApply(e.args.i)
     [] e.a = "Shrink" -> P_ShrinkISR(e.args.r, e.args.l, e.args.e)
     [] e.a = "Expand" -> P_ExpandISR(e.args.r, e.args.l, e.args.e)
     [] e.a = "Remove" -> P_RemoveStream
@@ -61,12 +71,14 @@ PropOf(e) ==
 
 ImplOf(e) ==
   CASE e.a = "Report" -> DoReportLeader(e.args.w, e.args.l, e.args.e)
+    [] e.a = "ReportCheck" -> DoReportCheck(e.args.w, e.args.l, e.args.e)
+    [] e.a = "ReportApply" -> DoReportApply(e.args.i)
     [] e.a = "Shrink" -> DoShrinkISR(e.args.r, e.args.l, e.args.e)
     [] e.a = "Expand" -> DoExpandISR(e.args.r, e.args.l, e.args.e)
     [] e.a = "Expire" -> DoExpire
     [] e.a = "Lose" -> DoLoseControllership
     [] e.a = "Remove" -> DoRemoveStream
-    [] e.a = "Skip" -> UNCHANGED <<exists, isr, leader, lepoch, pepoch, e0, fo>>
+    [] e.a = "Skip" -> UNCHANGED <<exists, isr, leader, lepoch, pepoch, e0, fo, pend>>
     [] OTHER -> FALSE
 
 TraceNext ==
@@ -76,6 +88,7 @@ TraceNext ==
      /\ BindObserved(e)
      /\ good' = GoodAfter(e)
      /\ armed' = ArmedAfter(e)
+     /\ taint' = TaintAfter(e)
      /\ IF e.a = "Open" THEN TRUE
         ELSE /\ Chk(PropOf(e), "P", e, "step")
              /\ Chk(ImplOf(e), "I", e, "step")
